@@ -47,7 +47,10 @@ structure RespRun where
 deriving Repr
 
 structure Sys where
-  store   : List (Cid × Blk) := []          -- the requestor's block store, shared by all requests
+  store   : List (Cid × Blk) := []          -- the requestor's default block store, shared by all requests that
+                                             -- do not use a persistence option
+  own     : List (Option (List (Cid × Blk))) := []   -- `some st`: request i uses a persistence option, i.e. a
+                                             -- block store of its own (its dedup key is the option's name)
   reqs    : List Requestor.State := []
   lts     : List LT := []
   keys    : List (Option Key) := []          -- dedup-by-key extension of each request
@@ -64,64 +67,93 @@ deriving Repr, DecidableEq
 
 def setAt {α : Type} (l : List α) (i : Nat) (v : α) : List α := l.set i v
 
+/-- the block store request `i` loads from and writes to -/
+def storeOf (s : Sys) (i : Nat) : List (Cid × Blk) :=
+  match s.own.getD i none with
+  | some st => st
+  | none => s.store
+
+/-- write back the store of request `i` after one of its steps -/
+def putStore (s : Sys) (i : Nat) (st : List (Cid × Blk)) : Sys :=
+  match s.own.getD i none with
+  | some _ => { s with own := setAt s.own i (some st) }
+  | none => { s with store := st }
+
 /-- the skip value of the request message, if one was sent -/
 def sentSkip (evs : List Ev) : Option Nat :=
   evs.findSome? fun | .sentNew k => some k | _ => none
 
-def initSys (st : List (Cid × Blk)) (rem : List Cid) (lts : List LT) (keys : List (Option Key)) : Sys :=
-  { store := st, rem := rem, lts := lts, keys := keys
+def initSys (st : List (Cid × Blk)) (rem : List Cid) (lts : List LT) (keys : List (Option Key))
+    (own : List (Option (List (Cid × Blk))) := []) : Sys :=
+  { store := st, own := own, rem := rem, lts := lts, keys := keys
     reqs := lts.map fun _ => {}
     resp := lts.map fun _ => {}
     chan := lts.map fun _ => []
     evs := lts.map fun _ => [] }
+
+/-- the requestor issues a request over block store `st` -/
+def reqStart (r : Requestor.State) (st : List (Cid × Blk)) (lt : LT) : Requestor.State × List Ev :=
+  Requestor.request { r with L := { r.L with store := st } } lt 0
+
+/-- one response message reaches the executor of a request that works over block store `st` -/
+def reqMsg (r : Requestor.State) (st : List (Cid × Blk)) (w : Wire) : Requestor.State × List Ev :=
+  Requestor.message { r with L := { r.L with store := st } } true true w.status w.md w.blocks
+
+/-- `prepareQuery`: dedup-by-key, then do-not-send-first-blocks -/
+def prepare (t : PeerTracker) (i : Nat) (key : Option Key) (k : Nat) : PeerTracker :=
+  let t1 := match key with
+    | some key => t.dedupKey i key
+    | none => t
+  if k > 0 then t1.skipFirstBlocks i k else t1
+
+/-- one step of the responder's executor for the in-progress request `i` -/
+def respStep (t : PeerTracker) (rem : List Cid) (i : Nat) (rr : RespRun) : PeerTracker × RespRun × Wire :=
+  if rr.rootMiss then
+    let (t', _) := t.finishTracking i
+    (t', { rr with active := false }, { status := 34 })
+  else
+  match rr.todo with
+  | [] =>
+    let (t', all) := t.finishTracking i
+    (t', { rr with active := false }, { status := if all then 20 else 21 })
+  | n :: rest =>
+    let present := rem.contains n.cid
+    let (t', send, _) := t.traverse i n.cid present
+    let w : Wire := { md := [(n.cid, if present then .present else .missing)],
+                      blocks := if send then [(n.cid, n.cid)] else [] }
+    let rr' : RespRun :=
+      if present then { rr with todo := rest }
+      else { rr with todo := rest.dropWhile (fun m => m.depth > n.depth), rootMiss := n.depth == 0 }
+    (t', rr', w)
 
 def step (s : Sys) : Act → Sys
   | .start i =>
     match s.reqs[i]?, s.lts[i]? with
     | some r, some lt =>
       if r.phase != .idle then s else
-      let (r', ev) := Requestor.request { r with L := { r.L with store := s.store } } lt 0
-      let s1 := { s with reqs := setAt s.reqs i r', store := r'.L.store, evs := setAt s.evs i ((s.evs.getD i []) ++ ev) }
+      let (r', ev) := reqStart r (storeOf s i) lt
+      let s0 := putStore s i r'.L.store
+      let s1 := { s0 with reqs := setAt s.reqs i r', evs := setAt s.evs i ((s.evs.getD i []) ++ ev) }
       match sentSkip ev with
       | none => s1
       | some k =>
-        -- prepareQuery: dedup-by-key, then do-not-send-first-blocks
-        let t1 := match (s.keys.getD i none) with
-          | some key => s1.tracker.dedupKey i key
-          | none => s1.tracker
-        let t2 := if k > 0 then t1.skipFirstBlocks i k else t1
-        { s1 with tracker := t2, resp := setAt s1.resp i { todo := lt, active := true } }
+        { s1 with tracker := prepare s.tracker i (s.keys.getD i none) k,
+                  resp := setAt s.resp i { todo := lt, active := true } }
     | _, _ => s
   | .resp i =>
     match s.resp[i]? with
     | some rr =>
       if !rr.active then s else
-      if rr.rootMiss then
-        let (t', _) := s.tracker.finishTracking i
-        { s with tracker := t', resp := setAt s.resp i { rr with active := false },
-                 chan := setAt s.chan i ((s.chan.getD i []) ++ [{ status := 34 }]) }
-      else
-      match rr.todo with
-      | [] =>
-        let (t', all) := s.tracker.finishTracking i
-        { s with tracker := t', resp := setAt s.resp i { rr with active := false },
-                 chan := setAt s.chan i ((s.chan.getD i []) ++ [{ status := if all then 20 else 21 }]) }
-      | n :: rest =>
-        let present := s.rem.contains n.cid
-        let (t', send, _) := s.tracker.traverse i n.cid present
-        let w : Wire := { md := [(n.cid, if present then .present else .missing)],
-                          blocks := if send then [(n.cid, n.cid)] else [] }
-        let rr' : RespRun :=
-          if present then { rr with todo := rest }
-          else { rr with todo := rest.dropWhile (fun m => m.depth > n.depth), rootMiss := n.depth == 0 }
-        { s with tracker := t', resp := setAt s.resp i rr', chan := setAt s.chan i ((s.chan.getD i []) ++ [w]) }
+      let (t', rr', w) := respStep s.tracker s.rem i rr
+      { s with tracker := t', resp := setAt s.resp i rr', chan := setAt s.chan i ((s.chan.getD i []) ++ [w]) }
     | none => s
   | .deliver i =>
     match s.reqs[i]?, s.chan[i]? with
     | some r, some (w :: ws) =>
-      let (r', ev) := Requestor.message { r with L := { r.L with store := s.store } } true true w.status w.md w.blocks
-      { s with reqs := setAt s.reqs i r', store := r'.L.store, chan := setAt s.chan i ws,
-               evs := setAt s.evs i ((s.evs.getD i []) ++ ev) }
+      let (r', ev) := reqMsg r (storeOf s i) w
+      let s0 := putStore s i r'.L.store
+      { s0 with reqs := setAt s.reqs i r', chan := setAt s.chan i ws,
+                evs := setAt s.evs i ((s.evs.getD i []) ++ ev) }
     | _, _ => s
 
 def run (s : Sys) (sched : List Act) : Sys := sched.foldl step s
